@@ -421,7 +421,8 @@ NATURAL = ["missing_input", "empty_input", "garbage_input", "binary_input", "no_
            "nonintegral_userff", "garbage_userff", "broken_names_xml", "ligand_missing_file", "ligand_garbage",
            "ligand_duplicate_names", "unknown_option", "cif_garbage", "input_is_directory", "his_no_h_assign_only",
            "conflicting_clean_userff", "only_waters_dropped", "ter_only", "ligand_partial_nonintegral",
-           "ligand_partial_nonintegral", "nonintegral_userff_large", "nonintegral_userff_large"]
+           "ligand_partial_nonintegral", "nonintegral_userff_large", "nonintegral_userff_large",
+           "nonintegral_userff_terminal_nucleotide", "nonintegral_userff_terminal_nucleotide"]
 
 
 def good_text(rng):
@@ -494,6 +495,19 @@ def natural(spec, rng):
             wat.append({"resn": "HOH", "kind": "wat", "atoms": [("O", np.array([30.0 + 3.1 * i, 30.0 + 3.1 * j, 30.0 + 3.1 * l]))]})
         pep = S.peptide(["ALA", "SER", "LYS", "GLY"], rng)
         its, _ = S.assemble([{"id": "A", "start": 1, "residues": pep}, {"id": "W", "start": 1, "residues": wat}])
+        text = pdbfmt.to_text(its)
+    elif f == "nonintegral_userff_terminal_nucleotide":
+        # the defect sits only in a terminal nucleotide's parameters: the total-charge gate must still see it
+        import re
+        end = rng.choice(["5", "3"])
+        strand = S.nucleic(list("ATGC"), rng, dna=True, first_phosphate=False)
+        resn = {"5": "DA5", "3": "DC3"}[end]
+        bad = re.sub(r"^(%s\s+C5'\s+)(-?[0-9.]+)" % resn, lambda mo: mo.group(1) + "%.4f" % (float(mo.group(2)) + 0.3),
+                     amber_dat, count=1, flags=re.M)
+        assert bad != amber_dat
+        extra = {"u.dat": bad, "u.names": amber_names}
+        opts = ["--userff={dir}/u.dat", "--usernames={dir}/u.names"]
+        its, _ = S.assemble([{"id": "A", "start": 1, "residues": strand}])
         text = pdbfmt.to_text(its)
     elif f == "garbage_userff":
         extra = {"u.dat": "ALA CB notanumber 1.0\n", "u.names": amber_names}
